@@ -519,10 +519,14 @@ def shards(tier):
 
 def run_shard(spec, ctx):
     rec = core.Rec()
-    core.enum_shard(core.sliced(method_cases(), ctx.index, ctx.nshards), check_case, ctx, rec=rec, stop_after=12)
-    core.enum_shard(core.sliced(filter_cases(), ctx.index, ctx.nshards), check_case, ctx, rec=rec, stop_after=12)
-    core.hyp_shard(random_method_case(), check_case, ctx, ctx.pick(1500, 40000), rec=rec, tag="m")
-    core.hyp_shard(random_filter_case(), check_case, ctx, ctx.pick(1500, 40000), rec=rec, tag="f")
+    # each stage runs only while nothing has failed: a failing tree is reported from the cheapest stage
+    core.enum_shard(core.sliced(method_cases(), ctx.index, ctx.nshards), check_case, ctx, rec=rec, stop_after=6)
+    if not rec.violations:
+        core.enum_shard(core.sliced(filter_cases(), ctx.index, ctx.nshards), check_case, ctx, rec=rec, stop_after=6)
+    if not rec.violations:
+        core.hyp_shard(random_method_case(), check_case, ctx, ctx.pick(1500, 40000), rec=rec, tag="m")
+    if not rec.violations:
+        core.hyp_shard(random_filter_case(), check_case, ctx, ctx.pick(1500, 40000), rec=rec, tag="f")
     return rec
 
 
